@@ -107,7 +107,14 @@ def tables(protocol, message):
         raise TranslatorError('source of dataReceived not available: %r' % (e,))
     t['how'] = how
 
-    codes = [c for c, n in message._hcode.items() if n == 'unix_fds']
+    # message._hcode through public behaviour (harness/c03_probe.py: the private name is only the fast path)
+    from harness import c03_probe as _P
+    from txdbus import marshal as _marshal_mod
+    try:
+        _hc = _P.field_by_code(message, _marshal_mod, _P.header_signature(message, _marshal_mod))
+    except _P.ProbeError as e:
+        raise TranslatorError(str(e))
+    codes = [c for c, n in _hc.items() if n == 'unix_fds']
     if len(codes) != 1:
         raise TranslatorError('message._hcode: expected exactly one code for unix_fds, found %r' % (codes,))
     t['unixFdsCode'] = codes[0]
